@@ -81,11 +81,24 @@ Theorem C09_update_volume_strong_refuted :
 Proof. exact update_volume_strong_refuted. Qed.
 Print Assumptions C09_update_volume_strong_refuted.
 
+(* terminating queue objects: a terminating child still makes its parent a non-leaf;
+   a terminating target that is Open and childless is admitted *)
+Theorem C09_create_terminating_child_still_blocks :
+  validate_create tq_oracles [mkQueue 1 1 0 false; mkQueue 4 1 1 false; mkQueue 5 1 4 true] (tq_job 4) = false /\
+  validate_create tq_oracles [mkQueue 1 1 0 false; mkQueue 4 1 1 false] (tq_job 4) = true.
+Proof. exact create_terminating_child_still_blocks. Qed.
+Print Assumptions C09_create_terminating_child_still_blocks.
+
+Theorem C09_create_admits_terminating_target :
+  exists qs q, In q qs /\ q_term q = true /\ validate_create tq_oracles qs (tq_job (q_name q)) = true.
+Proof. exact create_admits_terminating_target. Qed.
+Print Assumptions C09_create_admits_terminating_target.
+
 (* non-vacuity: a three-task job with a dependency chain, a partition policy,
    policies, volumes and the mpi plugin is admitted, stays admitted after
    defaulting, and accepts a replica update *)
 Definition ex_oracles := mkOracles (fun n _ => negb (n =? 0)) (fun _ _ _ => true) (fun _ => true) (fun _ => true).
-Definition ex_queues := [mkQueue 1 1 0; mkQueue 2 1 1; mkQueue 3 1 1; mkQueue 5 1 3].
+Definition ex_queues := [mkQueue 1 1 0 false; mkQueue 2 1 1 false; mkQueue 3 1 1 true; mkQueue 5 1 3 true].
 Definition ex_job : job :=
   mkJob 2001
     [mkTask 1 2 None (mkTmpl 1 true 0) [mkPolicy 2 2 [3; 2] None 30; mkPolicy 1 0 [] (Some 137) 0] 0 None None;
